@@ -410,6 +410,9 @@ class Sim:
                     raise Violation('unexpected_exception', api, f'{type(e).__name__}: {e}')
                 val, fired, exc = None, True, e
             self.log.add('fault', kind, k, npts, bool(fired), str(self.inj.fired_at))
+            if self.inj.fired_at is not None:
+                self.cover.setdefault('fault_sites', set()).add(f'{self.inj.fired_at[0]}:{self.inj.fired_at[1]}')
+            self.stats['max.injection_points_in_one_op'] = max(self.stats.get('max.injection_points_in_one_op', 0), int(npts))
             if fired:
                 self.bump(f'fault.{kind}.fired')
                 self.bump('probe.third_party_state_restored', seams.third_party_state_restore())
@@ -676,6 +679,9 @@ class Sim:
                     raise Violation('unexpected_exception', 'Circuit.apply_state', f'{type(e).__name__}: {e}')
                 out, fired, exc = None, True, e
             self.log.add('fault', kind, kk, npts, bool(fired), str(self.inj.fired_at))
+            if self.inj.fired_at is not None:
+                self.cover.setdefault('fault_sites', set()).add(f'{self.inj.fired_at[0]}:{self.inj.fired_at[1]}')
+            self.stats['max.injection_points_in_one_op'] = max(self.stats.get('max.injection_points_in_one_op', 0), int(npts))
             if fired:
                 self.bump(f'fault.{kind}.fired')
                 self.bump('probe.third_party_state_restored', seams.third_party_state_restore())
